@@ -175,6 +175,22 @@ theorem exit_spec {u : Int} {s s1 : State} {a : Identity} (h : step u s (.exit a
       exact ⟨o, rfl, (guard_iff.mp hg).1, rfl, by simp only [hz, Status.patch], rfl, rfl⟩
     · rw [if_neg hg] at h; cases h
 
+theorem keepaliveFail_spec {u : Int} {s s1 : State} {a : Identity} {w : Bool} (h : step u s (.keepaliveFail a w) = some s1) :
+    ∃ o, s.ops a = some o ∧ o.alive = true ∧ s1.now = s.now ∧
+      s1.status = (if w then s.status.erase a else s.status) ∧ s1.ver = (if w then s.ver + 1 else s.ver) ∧
+      s1.ops = updOp s.ops a { o with exiting := true, sleeping := false, nextKA := none } := by
+  simp only [step] at h
+  cases hk : s.ops a with
+  | none => simp [hk] at h
+  | some o =>
+    simp only [hk] at h
+    by_cases ha : o.alive = true
+    · rw [if_pos ha] at h
+      simp only [Option.some.injEq] at h
+      subst h
+      exact ⟨o, rfl, ha, rfl, rfl, rfl, rfl⟩
+    · simp [ha] at h
+
 theorem exitBegin_spec {u : Int} {s s1 : State} {a : Identity} (h : step u s (.exitBegin a) = some s1) :
     ∃ o, s.ops a = some o ∧ o.alive = true ∧ o.exiting = false ∧ s1.now = s.now ∧ s1.status = s.status ∧ s1.ver = s.ver ∧
       s1.ops = updOp s.ops a { o with exiting := true, sleeping := false } := by
@@ -475,6 +491,11 @@ theorem inv_step {u : Int} {s s' : State} {l : Label} (hi : Inv u s) (h : step u
   | exitBegin i =>
     obtain ⟨o, ho, _, _, _, hst, hver, hops⟩ := exitBegin_spec h
     exact inv_frame hi (by omega) (fun _ => hst) (hops_upd ho hops rfl rfl rfl)
+  | keepaliveFail i w =>
+    obtain ⟨o, ho, _, _, hst, hver, hops⟩ := keepaliveFail_spec h
+    cases w
+    · exact inv_frame hi (by simp at hver; omega) (fun _ => by simpa using hst) (hops_upd ho hops rfl rfl rfl)
+    · exact inv_frame hi (by simp at hver; omega) (fun e => by simp at hver; omega) (hops_upd ho hops rfl rfl rfl)
   | exitEnd i =>
     obtain ⟨o, ho, _, _, _, _, hver, hops⟩ := exitEnd_spec h
     exact inv_frame hi (by omega) (fun e => by omega) (hops_upd ho hops rfl rfl rfl)
